@@ -56,6 +56,9 @@ type budgetFS struct {
 	fs    fsutil.FS
 	calls atomic.Int64
 	limit int64
+	// failAt: a walk of exactly this target fails with an I/O error
+	failAt string
+	failed bool
 }
 
 var errBudget = fmt.Errorf("walk budget exhausted")
@@ -64,6 +67,10 @@ func (b *budgetFS) Walk(ctx context.Context, target string, fn gofs.WalkDirFunc)
 	if b.calls.Add(1) > b.limit {
 		return errBudget
 	}
+	if b.failAt != "" && filepath.Clean(target) == b.failAt {
+		b.failed = true
+		return fmt.Errorf("injected I/O error reading %s", target)
+	}
 	return b.fs.Walk(ctx, target, fn)
 }
 func (b *budgetFS) Open(p string) (io.ReadCloser, error) { return b.fs.Open(p) }
@@ -71,6 +78,12 @@ func (b *budgetFS) Open(p string) (io.ReadCloser, error) { return b.fs.Open(p) }
 // resolveRef resolves one concrete path chroot-style on the tree model. It
 // returns the symlinks traversed and the final location ("" = the root).
 func resolveRef(t fsmodel.Tree, p string) (links []string, final string, exists bool) {
+	links, final, exists, _ = resolveRefV(t, p)
+	return
+}
+
+// resolveRefV also returns every (symlink, remaining path) pair met on the way.
+func resolveRefV(t fsmodel.Tree, p string) (links []string, final string, exists bool, visits [][2]string) {
 	comps := strings.Split(path.Clean("/"+p), "/")[1:]
 	var cur []string
 	hops := 0
@@ -89,13 +102,14 @@ func resolveRef(t fsmodel.Tree, p string) (links []string, final string, exists 
 		here := strings.Join(append(append([]string{}, cur...), c), "/")
 		n := t.Find(here)
 		if n == nil {
-			return links, strings.Join(append(append([]string{}, cur...), append([]string{c}, comps...)...), "/"), false
+			return links, strings.Join(append(append([]string{}, cur...), append([]string{c}, comps...)...), "/"), false, visits
 		}
 		if n.Kind == fsmodel.Symlink {
 			links = append(links, here)
+			visits = append(visits, [2]string{here, strings.Join(comps, "/")})
 			hops++
 			if hops > 40 {
-				return links, here, false
+				return links, here, false, visits
 			}
 			tgt := path.Clean(n.Link)
 			var rest []string
@@ -109,11 +123,11 @@ func resolveRef(t fsmodel.Tree, p string) (links []string, final string, exists 
 			continue
 		}
 		if n.Kind != fsmodel.Dir && len(comps) > 0 {
-			return links, here, false // a file in the middle of the path: the request names nothing
+			return links, here, false, visits // a file in the middle of the path: the request names nothing
 		}
 		cur = append(cur, c)
 	}
-	return links, strings.Join(cur, "/"), true
+	return links, strings.Join(cur, "/"), true, visits
 }
 
 func hasWild(s string) bool { return strings.ContainsAny(s, "*?[") }
@@ -157,6 +171,18 @@ func judgeC18(c c18Case) (string, string) {
 		if bfs.calls.Load() > bfs.limit {
 			return "no-termination", fmt.Sprintf("more than %d directory walks without an answer", bfs.limit)
 		}
+		// a wildcard whose directory is not a directory names nothing; failing the call is acceptable
+		for _, req := range c.Requests {
+			parts := strings.Split(path.Clean(req), "/")
+			for i := range parts {
+				if hasWild(parts[i]) {
+					_, loc, ok := resolveRef(c.Tree, strings.Join(parts[:i], "/"))
+					if n := c.Tree.Find(loc); !ok || (loc != "" && (n == nil || n.Kind != fsmodel.Dir)) {
+						return "", ""
+					}
+				}
+			}
+		}
 		return "followlinks-failed", err.Error()
 	}
 	if !sort.StringsAreSorted(res) {
@@ -189,6 +215,55 @@ func judgeC18(c c18Case) (string, string) {
 	}
 	rootReached := false
 	rootClass := ""
+	// links that the reference resolution of the whole request list meets with different remainders
+	rem := map[string]map[string]bool{}
+	note := func(link, remainder string) {
+		if rem[link] == nil {
+			rem[link] = map[string]bool{}
+		}
+		rem[link][remainder] = true
+	}
+	for _, req := range c.Requests {
+		parts := strings.Split(path.Clean(req), "/")
+		wi := -1
+		for i := range parts {
+			if hasWild(parts[i]) {
+				wi = i
+				break
+			}
+		}
+		if wi < 0 {
+			_, _, _, vs := resolveRefV(c.Tree, req)
+			for _, v := range vs {
+				note(v[0], v[1])
+			}
+			continue
+		}
+		// links before the wildcard are met once, with the rest of the pattern as remainder
+		_, _, _, pvs := resolveRefV(c.Tree, strings.Join(parts[:wi], "/"))
+		for _, v := range pvs {
+			note(v[0], strings.TrimPrefix(v[1]+"/"+strings.Join(parts[wi:], "/"), "/"))
+		}
+		// each match continues on its own
+		for _, conc := range expand(c.Tree, req) {
+			_, _, _, vs := resolveRefV(c.Tree, conc)
+			for k, v := range vs {
+				if k < len(pvs) {
+					continue
+				}
+				note(v[0], v[1])
+			}
+		}
+	}
+	revisited := func(conc string) bool {
+		ls, _, _, _ := resolveRefV(c.Tree, conc)
+		for _, l := range ls {
+			if len(rem[l]) > 1 {
+				return true
+			}
+		}
+		return false
+	}
 	for _, req := range c.Requests {
 		for _, conc := range expand(c.Tree, req) {
 			links, final, exists := resolveRef(c.Tree, conc)
@@ -199,8 +274,8 @@ func judgeC18(c c18Case) (string, string) {
 				switch {
 				case belowPlainWildcardMatch(c.Tree, req, conc):
 					return ":below-plain-match-of-middle-wildcard"
-				case len(c.Requests) > 1 && coveredAlone(c.Tree, req, loc):
-					return ":only-in-combination"
+				case (len(c.Requests) > 1 && coveredAlone(c.Tree, req, loc)) || revisited(conc):
+					return ":link-revisited-with-other-remainder"
 				}
 				return ""
 			}
@@ -219,6 +294,22 @@ func judgeC18(c c18Case) (string, string) {
 	}
 	if rootReached && len(res) != 0 {
 		return "root-reached-but-not-empty" + rootClass, fmt.Sprintf("a request resolves to the tree root but the result is %q", res)
+	}
+	// a fault while inspecting one match of a wildcard must fail the call, not shrink the result
+	for _, req := range c.Requests {
+		if !hasWild(req) || len(c.Requests) != 1 {
+			continue
+		}
+		for _, conc := range expand(c.Tree, req) {
+			if n := c.Tree.Find(conc); n == nil || n.Kind != fsmodel.Symlink {
+				continue
+			}
+			ffs := &budgetFS{fs: memfs.New(c.Tree), limit: 2000, failAt: conc}
+			_, ferr := fsutil.FollowLinks(ffs, c.Requests)
+			if ffs.failed && ferr == nil {
+				return "fault-swallowed", fmt.Sprintf("reading %q (a match of %q) failed with an I/O error, but FollowLinks reported success", conc, req)
+			}
+		}
 	}
 	if !c.Transfer {
 		return "", ""
@@ -318,7 +409,7 @@ func c18Trees(tier string) []fsmodel.Tree {
 		}
 	}
 	linkable := []string{"d/l", "d/s/x", "l", "m", "a-b", "d/s"}
-	targets := []string{"a", "a/b", "/a", "../a", "../../a", "l", "m", "nope", "d/..", "/", "/d/s", "s/x"}
+	targets := []string{"a", "a/b", "/a", "../a", "../../a", "l", "m", "nope", "d/..", "/", "/d/s", "s/x", "d", "/d"}
 	var out []fsmodel.Tree
 	set := func(t fsmodel.Tree, p, tgt string) fsmodel.Tree {
 		if p == "d/s" {
@@ -360,7 +451,7 @@ func runC18(r *evid.Run) {
 	r.Rule = "one evaluation = one FollowLinks call (plus, for single requests, one real filtered transfer and re-resolution in the copy); non-trivial = trees with at least one symlink; states = distinct cases"
 	r.Assume = []string{"termination is judged by a budget of 2000 directory walks (a terminating resolution of these trees needs < 100)", "the result is read as include patterns with moby/patternmatcher's non-incremental entry point"}
 	trees := c18Trees(r.Tier)
-	reqs := []string{"a", "a/b", "a-b", "d", "d/l", "d/s", "d/s/x", "l", "m", "*", "d/*", "*/b", "d/*/x", "nope", "/", "a/../l", "d/s/../l"}
+	reqs := []string{"a", "a/b", "a-b", "d", "d/l", "d/s", "d/s/x", "l", "m", "*", "d/*", "*/b", "d/*/x", "nope", "/", "a/../l", "d/s/../l", "l/*", "m/l*", "l/s/x"}
 	var lists [][]string
 	for _, a := range reqs {
 		lists = append(lists, []string{a})
